@@ -53,7 +53,9 @@ REQUIRED_COUNTERS = ["docs_loaded", "docs_loaded_from_file", "settings_compared"
                      "parity_runs", "parity_arrays_compared", "parity_events_compared", "calibration_docs",
                      "refusal_cases", "refusal_refused", "range_probes", "range_invalid_refused",
                      "range_valid_accepted", "sweep_probe_events", "disabled_models_loaded",
-                     "disabled_parameters_loaded"]
+                     "disabled_parameters_loaded", "sessions", "session_edits_applied", "session_edited_checked",
+                     "session_bystanders_checked", "session_loaded_after_edit_checked", "session_parity_checks",
+                     "session_bystanders_with_omitted_readout_run"]
 TIMEOUT = {"quick": 600, "thorough": 3000}
 LEVEL_TEXT = ("Exploration by runtime monitoring: generated documents are loaded by the real pyxel.loads / pyxel.load, every "
               "written setting is read back through public properties; YAML-built and Python-built configurations are run "
@@ -78,6 +80,9 @@ def plan(tier, seed):
     total = len(all_triples())
     specs += [{"shard": 40 + s, "seed": seed, "kind": "ranges", "n": total * reps, "part": s,
                "parts": N_RANGE_SHARDS} for s in range(N_RANGE_SHARDS)]
+    n_ses = len(session_strata()) * (4 if tier == "quick" else 80)
+    specs += [{"shard": 60 + s, "seed": seed, "kind": "sessions", "n": n_ses, "part": s,
+               "parts": N_SESSION_SHARDS} for s in range(N_SESSION_SHARDS)]
     return specs
 
 
@@ -271,9 +276,9 @@ def gen_detector(rng, kind, full=False) -> dict:
     return {"kind": kind, "geometry": geo, "environment": env, "characteristics": ch}
 
 
-def gen_readout(rng, tmp, idx):
-    """-> (document dict or None, oracle dict, python kwargs for Readout)."""
-    form = rng.choice(["omitted", "list", "list", "intlist", "expr", "expr", "expr", "scalar", "file"])
+def gen_readout(rng, tmp, idx, form=None):
+    """-> (document dict or None, oracle dict, python kwargs for Readout).  `form` forces the way the times are written."""
+    form = form or rng.choice(["omitted", "list", "list", "intlist", "expr", "expr", "expr", "scalar", "file"])
     if form == "omitted":
         return None, {"form": form, "times": [1.0], "n": 1}, {}
     doc, py = {}, {}
@@ -564,10 +569,10 @@ def gen_calibration(rng, tmp, idx, dspec, pdoc):
     return cal
 
 
-def gen_document(rng, kind, mode, tmp, idx):
+def gen_document(rng, kind, mode, tmp, idx, readout_form=None):
     dspec = gen_detector(rng, kind)
     pdoc = gen_pipeline(rng)
-    rdoc, roracle, rpy = gen_readout(rng, tmp, idx)
+    rdoc, roracle, rpy = gen_readout(rng, tmp, idx, readout_form)
     doc = {build.DETECTOR_KEYS[kind]: {k: copy.deepcopy(dspec[k]) for k in ("geometry", "environment", "characteristics")},
            "pipeline": copy.deepcopy(pdoc)}
     oracle = {"kind": kind, "mode": mode, "readout": roracle, "readout_py": rpy, "dspec": dspec}
@@ -616,13 +621,13 @@ def private(obj, *names):
 
 
 class Cmp:
-    def __init__(self, rec, case, index):
-        self.rec, self.case, self.index = rec, case, index
+    def __init__(self, rec, case, index, tag=""):
+        self.rec, self.case, self.index, self.tag = rec, case, index, tag
         self.ok = True
 
     def fail(self, what, detail):
         self.ok = False
-        self.rec.violation(f"C12:fidelity:{what}", detail, self.case, self.index)
+        self.rec.violation(f"C12:{self.tag}fidelity:{what}", detail, self.case, self.index)
 
     def value(self, what, getter, written, expr=False, seq_close=False):
         self.rec.count("settings_compared")
@@ -658,7 +663,8 @@ def compare_readout(c, readout, rdoc, roracle):
     if rdoc is None:
         return
     expr = roracle["form"].startswith("expr")
-    c.value("readout.times", lambda: readout.times, roracle["times"], expr=expr, seq_close=True)
+    if "times" in rdoc or "times_from_file" in rdoc:
+        c.value("readout.times", lambda: readout.times, roracle["times"], expr=expr, seq_close=True)
     if "start_time" in rdoc:
         c.value("readout.start_time", lambda: readout.start_time, rdoc["start_time"])
     if "non_destructive" in rdoc:
@@ -773,8 +779,8 @@ def compare_calibration(c, cal, cdoc):
                            [{"values": p["values"], "expr": False} for p in ria], "calibration.result_input_arguments")
 
 
-def compare_config(rec, cfg, doc, oracle, case, index) -> bool:
-    c = Cmp(rec, case, index)
+def compare_config(rec, cfg, doc, oracle, case, index, tag="") -> bool:
+    c = Cmp(rec, case, index, tag)
     kind, mode = oracle["kind"], oracle["mode"]
     dkey = build.DETECTOR_KEYS[kind]
     for k in KINDS:
@@ -900,9 +906,10 @@ def run_once(mode, detector, pipeline):
     return tree_arrays(tree), norm_events(probes.events())
 
 
-def parity(rec, cfg, doc, oracle, case, index):
+def parity(rec, cfg, doc, oracle, case, index, tag="", edits=()):
+    """`edits`: changes already made to `cfg` through its public setters; the Python-built objects get the same ones."""
     mode = oracle["mode"]
-    mech = f"C12:parity:{mode}"
+    mech = f"C12:{tag}parity:{mode}"
     try:
         arrays_y, events_y = run_once(getattr(cfg, mode), cfg.detector, cfg.pipeline)
     except Exception as exc:  # noqa: BLE001
@@ -910,7 +917,10 @@ def parity(rec, cfg, doc, oracle, case, index):
         rec.violation(f"{mech}:yaml-run-failed", f"{type(exc).__name__}: {exc} :: {traceback.format_exc()[-700:]}", case, index)
         return
     try:
-        arrays_p, events_p = run_once(py_mode(doc, oracle), py_detector(oracle["dspec"]), py_pipeline(doc["pipeline"]))
+        py_objects = (py_mode(doc, oracle), py_detector(oracle["dspec"]), py_pipeline(doc["pipeline"]))
+        for ed in edits:
+            apply_edit(ed, *py_objects)
+        arrays_p, events_p = run_once(*py_objects)
     except Exception as exc:  # noqa: BLE001
         import traceback
         rec.violation(f"{mech}:python-run-failed-yaml-run-succeeded",
@@ -977,6 +987,274 @@ def docs_case(rec, i, rng, shard):
     if ok and mode != "calibration":
         parity(rec, cfg, doc, oracle, case, i)
     rec.case(sig, True, sample={"kind": kind, "mode": mode, "yaml": text[:1500]})
+
+
+# =============================================================================== sessions: histories of loads and edits
+# The statement quantifies over *every* loaded configuration, also when other configurations live in the same
+# process and are changed "later ... through [their] attribute".  A session loads several documents (independent
+# ones, variants of one kind, the same text twice), changes ONE loaded configuration through public setters, loads
+# further documents afterwards, and then demands of every configuration what is demanded of a single load:
+# the edited one holds file + edits and runs like Python-built objects that got the same edits, every other one
+# still holds exactly its file and runs like the objects built in Python from its file.
+SESSION_FORMS = ["omitted", "list", "expr", "scalar", "file", "intlist"]
+SESSION_EDITS = ["readout", "detector", "pipeline", "mode"]
+N_SESSION_SHARDS = 6
+EDITABLE_FIELDS = {"geometry": ["total_thickness", "pixel_vert_size", "pixel_horz_size", "pixel_scale"],
+                   "environment": ["temperature", "wavelength"],
+                   "characteristics": ["quantum_efficiency", "full_well_capacity", "adc_bit_resolution", "adc_voltage_range",
+                                       "charge_to_volt_conversion", "pre_amplification"]}
+
+
+def session_strata():
+    return [f"{f}/{t}" for t in SESSION_EDITS for f in SESSION_FORMS]
+
+
+def gen_readout_edits(rng, roracle):
+    """1-3 changes of a loaded Readout that its setters document as legal (first time > start time, increasing)."""
+    times = list(roracle["times"])
+    start = float(roracle.get("start_time", 0.0))
+    nd = bool(roracle.get("non_destructive", False))
+    what = rng.choice([["times"], ["times"], ["non_destructive"], ["start_time"], ["times", "non_destructive"],
+                       ["times", "non_destructive"], ["times", "start_time"], ["times", "start_time", "non_destructive"]])
+    edits = []
+    for w in what:
+        if w == "times":
+            n = rng.randint(1, 4)
+            first = max(start, 0.0) + round(rng.uniform(0.5, 10.0), rng.randint(0, 3)) + (0.25 if rng.random() < 0.5 else 0.0)
+            if rng.random() < 0.3:
+                first = float(math.ceil(first))
+            times = [first]
+            for _ in range(n - 1):
+                times.append(times[-1] + rng.choice([1.0, 0.5, 2.5, round(rng.uniform(0.1, 20.0), 2)]))
+            integral = all(float(t).is_integer() for t in times)
+            as_ = rng.choice(["list", "list", "array"] + (["scalar"] if n == 1 else []) + (["intlist"] if integral else []))
+            value = times[0] if as_ == "scalar" else ([int(t) for t in times] if as_ == "intlist" else list(times))
+            edits.append({"path": ["readout", "times"], "value": value, "as": as_})
+        elif w == "start_time":
+            first = float(times[0])
+            st = rng.choice([0.0, first / 2, first - rng.uniform(0.1, 5.0), -rng.uniform(0.5, 20.0)])
+            if not st < first or st == start:
+                st = first - 1.5
+            start = st
+            edits.append({"path": ["readout", "start_time"], "value": st})
+        else:
+            nd = (not nd) if rng.random() < 0.8 else nd
+            edits.append({"path": ["readout", "non_destructive"], "value": nd})
+    return edits
+
+
+def gen_detector_edits(rng, kind, ddoc):
+    fresh = gen_detector(rng, kind, full=True)       # in-range values of the same generator
+    cands = []
+    for part, fields in EDITABLE_FIELDS.items():
+        for f in fields:
+            if f not in fresh[part]:
+                continue
+            if f == "wavelength" and isinstance(ddoc["environment"].get("wavelength"), dict):
+                continue
+            cands.append((part, f))
+    chosen = rng.sample(cands, rng.randint(1, 3))
+    return [{"path": ["detector", part, f], "value": fresh[part][f]} for part, f in chosen]
+
+
+def gen_pipeline_edits(rng, pdoc):
+    cands = []
+    for group, models in pdoc.items():
+        for m in models or []:
+            if m["name"] == "fp":
+                cands += [("arg", group, m, "a"), ("arg", group, m, "b"), ("arg", group, m, "s"), ("arg", group, m, "v")]
+            elif m["name"] != "imgw":
+                cands.append(("enabled", group, m, None))
+                for k in m.get("arguments") or {}:
+                    cands.append(("arg", group, m, k))
+    edits = []
+    for what, group, m, k in rng.sample(cands, min(len(cands), rng.randint(1, 3))):
+        if what == "enabled":
+            edits.append({"path": ["pipeline", group, m["name"], "enabled"], "value": not m.get("enabled", True)})
+            continue
+        if m["name"] == "fp":
+            value = {"a": rng.randint(10, 99), "b": rng.choice([0.375, 4.5, 11.25]), "s": rng.choice(VOCAB),
+                     "v": [float(rng.randint(1, 9)), 0.5 * rng.randint(1, 9), -1.25]}[k]
+        else:
+            value = rand_value(rng)
+        edits.append({"path": ["pipeline", group, m["name"], "arguments", k], "value": value})
+    return edits
+
+
+def gen_mode_edits(rng, mode):
+    edits = [{"path": ["mode", "pipeline_seed"], "value": rng.choice([rng.randint(0, 2**31), rng.randint(0, 99), None])}]
+    if mode == "calibration":
+        edits[0]["value"] = rng.randint(0, 2**31)
+    elif rng.random() < 0.5:
+        edits.append({"path": ["mode", "result_type"], "value": rng.choice(["all", "image", "pixel", "signal"])})
+        rng.shuffle(edits)
+    return edits
+
+
+def gen_edits(rng, target, doc, oracle):
+    kind, mode = oracle["kind"], oracle["mode"]
+    if target == "readout":
+        return gen_readout_edits(rng, oracle["readout"])
+    if target == "detector":
+        return gen_detector_edits(rng, kind, doc[build.DETECTOR_KEYS[kind]])
+    if target == "pipeline":
+        return gen_pipeline_edits(rng, doc["pipeline"])
+    return gen_mode_edits(rng, mode)
+
+
+def edit_value(ed):
+    v = copy.deepcopy(ed["value"])
+    return np.array(v, dtype=float) if ed.get("as") == "array" else v
+
+
+def apply_edit(ed, run, detector, pipeline) -> None:
+    """One change through the public setters / mutable mappings a user has (same call for YAML- and Python-built objects)."""
+    path, value = ed["path"], edit_value(ed)
+    if path[0] == "readout":
+        setattr(run.readout, path[1], value)
+    elif path[0] == "detector":
+        setattr(getattr(detector, path[1]), path[2], value)
+    elif path[0] == "mode":
+        setattr(run, path[1], value)
+    else:
+        model = next(m for m in getattr(pipeline, path[1]).models if m.name == path[2])
+        if path[3] == "enabled":
+            model.enabled = value
+        else:
+            model.arguments[path[4]] = value
+
+
+def edited_document(doc, oracle, edits):
+    """-> (document, oracle) saying what the file says *plus* the edits (only used to read the settings back)."""
+    doc, oracle = copy.deepcopy(doc), copy.deepcopy(oracle)
+    kind, mode = oracle["kind"], oracle["mode"]
+    for ed in edits:
+        path, value = ed["path"], copy.deepcopy(ed["value"])
+        if path[0] == "readout":
+            mdoc = doc[mode] = doc[mode] or {}
+            rdoc = mdoc["readout"] = mdoc.get("readout") or {}
+            if path[1] == "times":
+                rdoc.pop("times_from_file", None)
+                rdoc["times"] = value
+                oracle["readout"] = dict(oracle["readout"], form="edited",
+                                         times=[float(t) for t in (value if isinstance(value, list) else [value])])
+            else:
+                rdoc[path[1]] = value
+        elif path[0] == "detector":
+            doc[build.DETECTOR_KEYS[kind]][path[1]][path[2]] = value
+        elif path[0] == "mode":
+            mdoc = doc[mode] = doc[mode] or {}
+            mdoc[path[1]] = value
+        else:
+            m = next(m for m in doc["pipeline"][path[1]] if m["name"] == path[2])
+            if path[3] == "enabled":
+                m["enabled"] = value
+            else:
+                m["arguments"][path[4]] = value
+    return doc, oracle
+
+
+def session_case(rec, i, rng):
+    import pyxel
+    form = SESSION_FORMS[i % len(SESSION_FORMS)]
+    target = SESSION_EDITS[(i // len(SESSION_FORMS)) % len(SESSION_EDITS)]
+    n = rng.choice([2, 3, 3, 4, 4])
+    kind0 = rng.choice(KINDS)
+    modes = ["exposure", "exposure", "observation", "observation", "calibration"]
+    entries = []
+    for k in range(n):
+        if k and rng.random() < 0.25:                       # the same document once more (text re-shuffled or verbatim)
+            src = rng.choice(entries)
+            ent = dict(src, text=src["text"] if rng.random() < 0.5 else build.dump_yaml(shuffled(src["doc"], rng)), dup=True)
+        else:
+            kind = kind0 if rng.random() < 0.5 else rng.choice(KINDS)
+            mode = rng.choice(modes)
+            doc, oracle = gen_document(rng, kind, mode, rec.tmp, f"s{i}_{k}", form if rng.random() < 0.8 else None)
+            ent = {"doc": doc, "oracle": oracle, "text": build.dump_yaml(shuffled(doc, rng)), "dup": False}
+        entries.append(ent)
+    entries = [dict(e, slot=k, from_file=rng.random() < 0.3) for k, e in enumerate(entries)]
+    n_late = 1 if rng.random() < 0.45 else 0              # loaded only after the edits
+    early, late = entries[:n - n_late], entries[n - n_late:]
+    edited = rng.choice(early)
+    edits = gen_edits(rng, target, edited["doc"], edited["oracle"])
+    if rng.random() < 0.25:
+        other = rng.choice([t for t in SESSION_EDITS if t != target])
+        edits += gen_edits(rng, other, *edited_document(edited["doc"], edited["oracle"], edits))
+    if rng.random() < 0.4:                                  # the edited document itself, loaded again afterwards
+        late.append(dict(edited, slot=len(entries), dup=True, from_file=rng.random() < 0.3))
+    case = {"readout_form": form, "edit_target": target, "edits": edits, "edited_slot": edited["slot"],
+            "history": [f"load {e['slot']}" for e in early] + [f"edit {edited['slot']}"] + [f"load {e['slot']}" for e in late],
+            "documents": {e["slot"]: e["text"] for e in early + late}}
+    sig = ("session", form, target, [(e["oracle"]["kind"], e["oracle"]["mode"], e["oracle"]["readout"]["form"], e["dup"])
+                                     for e in early + late], [ed["path"] for ed in edits], len(late))
+    rec.observe("session_strata", f"{form}/{target}")
+
+    def load(ent):
+        if ent["from_file"]:
+            path = os.path.join(rec.tmp, f"session_{i}_{ent['slot']}.yaml")
+            with open(path, "w") as fh:
+                fh.write(ent["text"])
+            return pyxel.load(path)
+        return pyxel.loads(ent["text"])
+
+    def load_all(ents):
+        for ent in ents:
+            try:
+                ent["cfg"] = load(ent)
+            except Exception as exc:  # noqa: BLE001
+                import traceback
+                rec.violation(f"C12:session:valid-document-refused:{ent['oracle']['mode']}", f"slot {ent['slot']}: "
+                              f"{type(exc).__name__}: {exc} :: {traceback.format_exc()[-600:]}", case, i)
+                return False
+            rec.count("session_docs_loaded")
+        return True
+
+    if not load_all(early):
+        rec.case(sig, True)
+        return
+    if rng.random() < 0.5:                                  # a user who looks at everything right after loading
+        for ent in early:
+            compare_config(rec, ent["cfg"], ent["doc"], ent["oracle"], case, i, "session:just-loaded:")
+    cfg = edited["cfg"]
+    for j, ed in enumerate(edits):
+        try:
+            apply_edit(ed, cfg.running_mode, cfg.detector, cfg.pipeline)
+        except Exception as exc:  # noqa: BLE001 - a legal change refused: not this monitor's business (range probes own it)
+            rec.count("session_edit_refused")
+            rec.observe("session_edit_refusals", f"{'.'.join(ed['path'][:2])}:{type(exc).__name__}")
+            case["edits"] = edits = edits[:j]
+            break
+        rec.count("session_edits_applied")
+        rec.observe("session_edit_paths", ".".join(ed["path"] if ed["path"][0] != "pipeline" else ["pipeline", ed["path"][3]]))
+    if not load_all(late):
+        rec.case(sig, True)
+        return
+    todo = early + late
+    rng.shuffle(todo)
+    for ent in todo:
+        mode = ent["oracle"]["mode"]
+        if ent is edited:
+            role = f"session:edited-{target}:"
+            doc_e, oracle_e = edited_document(ent["doc"], ent["oracle"], edits)
+            ok = compare_config(rec, ent["cfg"], doc_e, oracle_e, case, i, role)
+            rec.count("session_edited_checked")
+            if ok and mode != "calibration":
+                parity(rec, ent["cfg"], ent["doc"], ent["oracle"], case, i, role, edits)
+                rec.count("session_parity_checks")
+            continue
+        when = "loaded-after" if any(ent is e for e in late) else "loaded-before"
+        role = f"session:{when}-{target}-edit-of-another:"
+        ok = compare_config(rec, ent["cfg"], ent["doc"], ent["oracle"], case, i, role)
+        rec.count("session_bystanders_checked")
+        if when == "loaded-after":
+            rec.count("session_loaded_after_edit_checked")
+        if ok and mode != "calibration":
+            parity(rec, ent["cfg"], ent["doc"], ent["oracle"], case, i, role)
+            rec.count("session_parity_checks")
+            if ent["oracle"]["readout"]["form"] == "omitted":
+                rec.count("session_bystanders_with_omitted_readout_run")
+    rec.count("sessions")
+    rec.case(sig, True, sample={"readout_form": form, "edit_target": target, "history": case["history"], "edits": edits})
 
 
 # =============================================================================== refusal
@@ -1424,6 +1702,12 @@ def run_shard(spec, rec):
                 continue
             range_case(rec, i, rec.rng(i), triples[i % len(triples)])
         return
+    if kind == "sessions":
+        for i in range(spec["n"]):
+            if i % spec["parts"] != spec["part"] or not rec.wanted(i):
+                continue
+            session_case(rec, i, rec.rng(i))
+        return
     for i in range(spec["n"]):
         if not rec.wanted(i):
             continue
@@ -1443,6 +1727,9 @@ def finalize(counters, sets, tier):
     combos = set(sets.get("doc_combinations", []))
     if len(combos) < 12:
         out.append(f"only {len(combos)}/12 detector x mode combinations were loaded")
+    missing = set(session_strata()) - set(sets.get("session_strata", []))
+    if missing:
+        out.append(f"session strata (readout form / edited part) never exercised: {sorted(missing)[:4]}")
     return out
 
 
